@@ -266,7 +266,19 @@ impl Inner {
     }
     fn infix_filter(&self) -> InfixFilter {
         match self {
-            Inner::Initial(_o_r, _) => InfixFilter::None,
+            // before the first write the naming state does not exist yet
+            Inner::Initial(o_r, _) => {
+                o_r.as_ref()
+                    .map_or(InfixFilter::None, |rc| match rc.naming {
+                        Naming::Timestamps | Naming::TimestampsDirect => {
+                            InfixFilter::Timstmps(InfixFormat::Std)
+                        }
+                        Naming::TimestampsCustomFormat { format, .. } => {
+                            InfixFilter::Timstmps(InfixFormat::custom(format))
+                        }
+                        Naming::Numbers | Naming::NumbersDirect => InfixFilter::Numbrs,
+                    })
+            }
             Inner::Active(o_r, _, _) => o_r
                 .as_ref()
                 .map_or(InfixFilter::None, |rs| rs.naming_state.infix_filter()),
